@@ -133,7 +133,8 @@ class BaseDevice:
             self.log("drop", index)
             self._close_peer()
             return
-        delay = 0.0 if handshake else self.b.latency(self, index, cmd)
+        delay = (getattr(self.b, "handshake_latency", lambda d: 0.0)(self) if handshake
+                 else self.b.latency(self, index, cmd))
         extras = [] if handshake else self.b.before_ack(self, index, cmd)
         reply = b"ok" if handshake else self.b.final_reply(self, index, cmd)
         if delay:
